@@ -172,6 +172,12 @@ def _collect(body, lossy=False, unsafe=True):
                     mo = mo or re.match(r"^<&?(?:'\w+ )?(?:u8|u16|u32|u64|u128|usize|i8|i16|i32|i64|i128|isize) as std::ops::(Add|Sub|Mul|Div|Rem|Shl|Shr|Neg)<?", n)
                 if mo:
                     out.append(Oblig(body, bb, "OVF", mo.group(1) + "-call", t, line=t["line"], desc=callee_name(t), exp=t.get("expk", "")))
+                # integer methods that inherit the caller's overflow checks or panic on a value precondition
+                mi = None
+                for n in names:
+                    mi = mi or re.match(r"^(?:core|std)::num::<impl (usize|u8|u16|u32|u64|u128|i8|i16|i32|i64|i128|isize)>::(abs|pow|ilog|ilog2|ilog10|div_euclid|rem_euclid|next_power_of_two|isqrt|next_multiple_of|div_ceil)$", n)
+                if mi:
+                    out.append(Oblig(body, bb, "OVF", "int-" + mi.group(2), t, line=t["line"], desc=callee_name(t), exp=t.get("expk", "")))
             if kind:
                 nm = callee_name(t).split("::")[-1]
                 out.append(Oblig(body, bb, kind, nm, t, line=t["line"], desc=callee_name(t), exp=t.get("expk", "")))
